@@ -21,7 +21,7 @@ RULE = ('one abstract well-formed chart is materialised 5 ways - add_state/add_t
         '(move_state / rename_state detour); in half of the runs every materialisation also gets two guard-twin transitions added in a drawn '
         'order and one removed again - and the same seeded script '
         'drives all of them in lock-step: macro steps (consumed event, transitions, exit/entry order per micro step, sent events), executed '
-        'code, context, or the exception class at each step must be identical. After the batch, the first runs are re-executed in fresh '
+        'code, context, the calls received by three listeners attached in the same order to each interpreter, or the exception class at each step must be identical. After the batch, the first runs are re-executed in fresh '
         'interpreter processes under PYTHONHASHSEED in {0,1,2,3,4242} and the per-run digests of the complete event logs are compared. '
         'non-trivial = a run whose script produced >= 1 macro step with >= 2 exited or entered states while the declaration orders differ; '
         'distinct = distinct (chart, script, orders)')
@@ -63,6 +63,14 @@ def materialisations(sp, order):
     return mats
 
 
+def listen(sim):
+    """three attached listeners writing into one list: the order in which they are told is part of the run"""
+    heard = []
+    for i in range(3):
+        sim.it.attach(lambda me, i=i: heard.append((i, me.name)))
+    return heard
+
+
 def run(ch, tier, digest=None):
     res = Result()
     cfg = swarm(ch.s('cfg'), Cfg(sends=True, notify=True, delays=True, bump=True, pair_bias=2), tier)
@@ -72,11 +80,13 @@ def run(ch, tier, digest=None):
     sp = gen_spec(ch.s('chart'), cfg)
     mats = materialisations(sp, ch.s('order'))
     a = Sim(sp, statechart=mats[0][1])
+    heard = listen(a)
     outs = []
     rich = False
     for r in standard_ops(a, ch, tier, delays=True, hi=25 if tier == 'quick' else 60):
         res.stats['steps'] += 1
-        outs.append((sig(r.ms), r.exc_name(), sorted(r.post), r.ctx_after, code(r.log)))
+        outs.append((sig(r.ms), r.exc_name(), sorted(r.post), r.ctx_after, code(r.log), list(heard)))
+        del heard[:]
         if r.ms is not None and (len(r.ms.exited_states) >= 2 or len(r.ms.entered_states) >= 2):
             rich = True
     if digest is not None:
@@ -84,12 +94,14 @@ def run(ch, tier, digest=None):
     script = a.script
     for label, sc in mats[1:]:
         b = Sim(sp, statechart=sc)
+        heard_b = listen(b)
         for i, r in enumerate(replay_script(b, script)):
-            got = (sig(r.ms), r.exc_name(), sorted(r.post), r.ctx_after, code(r.log))
+            got = (sig(r.ms), r.exc_name(), sorted(r.post), r.ctx_after, code(r.log), list(heard_b))
+            del heard_b[:]
             if got != outs[i]:
-                fields = ['macro step', 'exception', 'configuration', 'context v', 'executed code']
+                fields = ['macro step', 'exception', 'configuration', 'context v', 'executed code', 'calls of the three attached listeners']
                 f, x, y = [(f, x, y) for f, x, y in zip(fields, got, outs[i]) if x != y][0]
-                return res.fail('declaration-order-matters', 'step %d: %s of the "%s" materialisation is %r, of "api creation order" %r' % (
+                return res.fail('listener-order-not-reproducible' if f.startswith('calls of') else 'declaration-order-matters', 'step %d: %s of the "%s" materialisation is %r, of "api creation order" %r' % (
                     i, f, label, x, y), chart=sp.describe(), script=[repr(o)[:60] for o in script][:30],
                     children_order={n: list(sc.children_for(n)) for n in sc.states if sc.children_for(n)},
                     transitions_order=[t.action.split('\n')[0] for t in sc.transitions])
